@@ -5,7 +5,7 @@ PROP = "C05"
 
 
 def kw(rng, i):
-    return {"max_requests": None, "queue_size": rng.choice([None, 10]), "policy": rng.choice(["fifo", "random", "lifo"]), "crashes": True}
+    return {"max_requests": None, "queue_size": rng.choice([None, 10]), "policy": rng.choice(["fifo", "random", "lifo"]), "crashes": True, "worker": rng.choice(["asyncio", "trio"])}
 
 
 def run(ctx):
